@@ -48,7 +48,7 @@ func NewRand(seed uint64, stream uint64) *rand.Rand {
 // plus segment 0 for setup and the last one for the heal phase) so that
 // removing an operation during shrinking removes exactly its decisions.
 type Tape struct {
-	Segs [][]int32 `json:"segs"`
+	Segs [][]int64 `json:"segs"`
 }
 
 //go:norace
@@ -75,9 +75,9 @@ func (t *Tape) NonZero() int {
 
 //go:norace
 func (t *Tape) Clone() *Tape {
-	c := &Tape{Segs: make([][]int32, len(t.Segs))}
+	c := &Tape{Segs: make([][]int64, len(t.Segs))}
 	for i, s := range t.Segs {
-		c.Segs[i] = append([]int32(nil), s...)
+		c.Segs[i] = append([]int64(nil), s...)
 	}
 	return c
 }
@@ -101,10 +101,10 @@ type Source struct {
 }
 
 //go:norace
-func NewSearch(s Strategy) *Source { return &Source{strat: s, rec: Tape{Segs: [][]int32{nil}}} }
+func NewSearch(s Strategy) *Source { return &Source{strat: s, rec: Tape{Segs: [][]int64{nil}}} }
 
 //go:norace
-func NewReplay(t *Tape) *Source { return &Source{replay: t, rec: Tape{Segs: [][]int32{nil}}} }
+func NewReplay(t *Tape) *Source { return &Source{replay: t, rec: Tape{Segs: [][]int64{nil}}} }
 
 // Segment switches to decision segment i (monotonically increasing).
 //
@@ -122,28 +122,75 @@ func (s *Source) next(n int, draw func() int) int {
 	v := 0
 	if s.replay != nil {
 		if s.seg < len(s.replay.Segs) && s.pos < len(s.replay.Segs[s.seg]) {
-			v = int(s.replay.Segs[s.seg][s.pos])
-			if v < 0 {
-				v = 0
+			x := s.replay.Segs[s.seg][s.pos]
+			if x < 0 {
+				x = 0
 			}
-			v %= n
+			v = int(x % int64(n))
 		}
 		s.pos++
 	} else {
 		v = draw()
 	}
-	s.rec.Segs[s.seg] = append(s.rec.Segs[s.seg], int32(v))
+	s.rec.Segs[s.seg] = Push64(s.rec.Segs[s.seg], int64(v))
 	return v
 }
 
+// Task records and replays scheduling decisions by task KEY (operation id +
+// creation ordinal), not by position in the runnable list: removing operations
+// while shrinking leaves the remaining decisions meaningful. Entry 0 = "keep
+// running the same task / lowest id".
+//
 //go:norace
 func (s *Source) Task(cands []*kern.Task) int {
-	return s.next(len(cands), func() int { return s.strat.Task(cands) })
+	s.Draws++
+	v := 0
+	if s.replay != nil {
+		if s.seg < len(s.replay.Segs) && s.pos < len(s.replay.Segs[s.seg]) {
+			if x := uint64(s.replay.Segs[s.seg][s.pos]); x != 0 {
+				for i, c := range cands {
+					if c.Key == x {
+						v = i
+						break
+					}
+				}
+			}
+		}
+		s.pos++
+	} else {
+		v = s.strat.Task(cands)
+		if v < 0 || v >= len(cands) {
+			v = 0
+		}
+	}
+	rec := int64(0)
+	if v != 0 {
+		rec = int64(cands[v].Key)
+	}
+	s.rec.Segs[s.seg] = Push64(s.rec.Segs[s.seg], rec)
+	return v
 }
 
 //go:norace
 func (s *Source) N(kind string, n int) int {
 	return s.next(n, func() int { return s.strat.N(kind, n) })
+}
+
+// Push64 appends without the runtime's race hooks (decisions are drawn on task
+// goroutines too).
+//
+//go:norace
+func Push64(s []int64, v int64) []int64 {
+	if len(s) == cap(s) {
+		n := make([]int64, len(s), 2*cap(s)+8)
+		for i := range s {
+			n[i] = s[i]
+		}
+		s = n
+	}
+	s = s[:len(s)+1]
+	s[len(s)-1] = v
+	return s
 }
 
 // Recorded returns the decisions actually taken.
